@@ -198,6 +198,25 @@ def gen_specs(ctx, pid):
                     src = rng.randrange(ti)
                     spec['refs'].append({'type': rng.choice(['>', '<', '-']), 't1': src, 'col1': [0], 't2': ti, 'col2': [0], 'name': None,
                                          'comment': None, 'on_update': None, 'on_delete': None, 'inline': rng.random() < 0.6})
+        if i % 5 == 1 and not wild:
+            # a declared table that bears the bare name of a many-to-many reference's join table, in another schema: it is a
+            # table of the database like any other (by position, without a draw)
+            mm = [x for x in spec['refs'] if x['type'] == '<>']
+            if mm:
+                t1, t2 = spec['tables'][mm[0]['t1']], spec['tables'][mm[0]['t2']]
+                nm, sch = f"{t1['name']}_{t2['name']}", ('audit' if t1['schema'] != 'audit' else 'audit2')
+                if not any(t['name'] == nm for t in spec['tables']):
+                    spec['tables'].append({'name': nm, 'schema': sch, 'alias': None,
+                                           'columns': [{'name': 'id', 'type': 'int', 'pk': False, 'unique': False, 'not_null': False,
+                                                        'autoinc': False, 'default': None, 'note': '', 'comment': None, 'props': []}],
+                                           'indexes': [], 'note': '', 'header_color': None, 'comment': None, 'abstract': False, 'props': []})
+        if i % 7 == 3:
+            # only the schema spelt exactly `public` is the default one: another spelling of the word is a schema like
+            # `hr` (chosen by position, without a draw: the other choices stay what they were)
+            alt = ('PUBLIC', 'Public', 'pUBLIC', ' public')[(i // 7) % 4]
+            for el in spec['tables'] + spec['enums']:
+                if el['schema'] == 'hr':
+                    el['schema'] = alt
         if pid == 'C18':
             # more inline references, fewer distractions
             for r in spec['refs']:
@@ -263,6 +282,11 @@ def run_sql_check(ctx, pid, extra_parts=None):
                          'content (the order does not depend on the model alone)', case18,
                          detail={'edited': obs_order(r['sql'][1]), 'fresh': r['fresh_order']})
         # oracle
+        if r['sql'][0] == 'err' and str(r['sql'][1]).startswith('internal'):
+            # "for every database, .sql contains ...": a database whose script cannot be had at all (KeyError, ValueError,
+            # IndexError ... - not one of the library's own refusals, which are C17's subject) contains none of it
+            ctx.fail('db.sql raises an exception that is not one of the library\'s own for a database built through the public classes',
+                     {'op': 'sql', 'spec': spec, 'history': r.get('history')}, detail=r['sql'][1])
         if 'oracle' in r:
             ctx.count('oracle:read-back')
             for what, detail, reason in r['oracle']:
